@@ -27,6 +27,7 @@ import Mathlib.Order.WithBot
 import QV.Model.EarlyStop
 import QV.Real
 import QV.Lemmas.Callbacks
+import QV.Lemmas.EarlyStopFit
 import QV.Props.C17
 
 namespace QV.Props
@@ -905,6 +906,288 @@ theorem C18_fit_entered_stopped {α : Type} [Sub α] [Div α] [Zero α] [BEq α]
     fitRun es evalFirst ⟨ev, ⟨true, last⟩, fired⟩ cands = .ok ⟨ev, ⟨true, last⟩, fired⟩ := by
   simp [fitRun]
 
+/-! ### the early-stopping loop IS the event protocol of C12 run with the derived stop requests
+
+`QV.Cb.fitLoop` / `fitRun` (QV/Model/EarlyStop.lean) compute the stop requests from the evaluation history;
+`QV.Train.fit` (QV/Model/Train.lean, property C12) takes them as a fixed oracle `Req`.  `QV.Cb.stopperReq`
+(QV/Model/EarlyStopFit.lean) is the oracle DERIVED from the evaluator, the stopper and the world tokens.  The theorems below
+show that `Train.fit` run with it traverses exactly the epochs `fitRun` fires, ends with the same flag, and that the hypotheses
+of C12's stop theorems (`QuietBefore`, `QuietUpto`, a request at `on_epoch_end`) hold for it — so `C12_protocol`,
+`C12_stop_at_epoch_end`, `C12_complete_without_stop`, `C12_sticky`, `C12_no_event_after_stop`, … apply verbatim to
+early-stopped runs.  Generic in the scalar type (no `ℝ`-specific hypothesis): all sizes, periods, patience, values. -/
+
+section tie
+variable {α : Type} [Sub α] [Div α] [Zero α] [BEq α] [LT α] [DecidableLT α] [Transc α]
+
+theorem fullEpochs_epochEnds (nb : Nat) (a b : Int) :
+    (C12.fullEpochs nb a b).filterMap C12.epochEndOf = Train.epochRange a b := by
+  unfold C12.fullEpochs
+  induction Train.epochRange a b with
+  | nil => rfl
+  | cons e es ih =>
+    have h1 := C12.pairs_filterMap_none C12.epochEndOf e nb (fun _ => rfl) (fun _ => rfl)
+    have b1 : (C12.epochBlock e nb).filterMap C12.epochEndOf = [e] := by
+      simp [C12.epochBlock, List.filterMap_cons, List.filterMap_append, h1, C12.epochEndOf]
+    rw [List.flatMap_cons, List.filterMap_append, b1, ih]; rfl
+
+/-- **C18 ↔ C12: the derived requests.** For the request oracle derived from evaluator + stopper (any callback list that
+contains the stopper; the other callbacks never ask): nobody asks at train-start, epoch-start, batch-start, inside a batch,
+at batch-end or at train-end; at `on_epoch_end(e)` somebody asks iff `stopAsk … e`.  Hence, in C12's vocabulary: every
+epoch is quiet up to any batch, epoch `e` is quiet iff the stopper does not ask at its end, and `QuietBefore e` iff it asks
+at the end of no epoch `start ≤ e' < e`. -/
+theorem C18_derived_requests (stId : Nat) (es : EarlyStopping α) (evalFirst : Bool) (ev₀ : AnyEval W α) (wof : Int → W)
+    (c : Train.Cfg) (hst : stId ∈ c.cbs) :
+    let R := stopperReq stId es evalFirst ev₀ wof c.start
+    Train.reqEv c R .trainStart = false ∧ Train.reqEv c R .trainEnd = false ∧
+    (∀ e, Train.reqEv c R (.epochEnd e) = stopAsk es evalFirst ev₀ wof c.start e) ∧
+    (∀ e j, C12.QuietUpto c R e j) ∧
+    (∀ e, C12.QuietEpoch c R e ↔ stopAsk es evalFirst ev₀ wof c.start e = false) ∧
+    (∀ e, C12.QuietBefore c R e ↔ ∀ e', c.start ≤ e' → e' < e → stopAsk es evalFirst ev₀ wof c.start e' = false) := by
+  intro R
+  have hreq := stopperReq_reqEv stId es evalFirst ev₀ wof c hst
+  have hts : Train.reqEv c R .trainStart = false := hreq .trainStart
+  have hee : ∀ e, Train.reqEv c R (.epochEnd e) = stopAsk es evalFirst ev₀ wof c.start e := fun e => hreq (.epochEnd e)
+  have hup : ∀ e j, C12.QuietUpto c R e j :=
+    fun e j => ⟨hreq (.epochStart e), fun b _ => ⟨hreq (.batchStart e b), rfl, hreq (.batchEnd e b)⟩⟩
+  have hqe : ∀ e, C12.QuietEpoch c R e ↔ stopAsk es evalFirst ev₀ wof c.start e = false := by
+    intro e
+    unfold C12.QuietEpoch
+    rw [hee e]
+    exact ⟨fun h => h.2, fun h => ⟨hup e _, h⟩⟩
+  refine ⟨hts, hreq .trainEnd, hee, hup, hqe, fun e => ?_⟩
+  unfold C12.QuietBefore
+  constructor
+  · intro h e' h1 h2
+    exact (hqe e').mp (h.2 e' h1 h2)
+  · intro h
+    exact ⟨hts, fun e' h1 h2 => (hqe e').mpr (h e' h1 h2)⟩
+
+/-- **C18 ↔ C12: the two cases of a run.** `fit(starting_epoch = c.start, epochs = c.epochs)` of QV.Model.EarlyStop (callback list
+`[evaluator, stopper]` or `[stopper, evaluator]`, the evaluator holding `ev₀` on entry, any `last_epoch` / fired log so far) that
+returns `r`, and `Train.fit` with the derived requests `R`, ANY number of batches (also 0), any other callbacks / timer /
+scheduler in `c`:
+* either the run stopped: at an epoch `e` of the range; `R` satisfies exactly the hypotheses of `C12_stop_at_epoch_end` at `e`
+  (`QuietBefore`, `QuietUpto`, a request at `on_epoch_end(e)`); the epochs EarlyStop fired are `start … e`; the C12 event trace
+  is train-start, the epochs `start … e` in full, train-end; both flags are set, `last_epoch = e`;
+* or it did not: `R` is quiet before `epochs + 1` (the hypothesis of `C12_complete_without_stop`), all epochs fired, the C12
+  trace is the complete one, both flags are clear, `last_epoch` is untouched. -/
+theorem C18_fit_cases (stId : Nat) (es : EarlyStopping α) (evalFirst : Bool) (ev₀ : AnyEval W α) (wof : Int → W)
+    (c : Train.Cfg) (hst : stId ∈ c.cbs) (last₀ : Option Int) (fired₀ : List Int) (r : FitState W α)
+    (hrun : fitRun es evalFirst ⟨ev₀, ⟨false, last₀⟩, fired₀⟩
+      ((Train.epochRange c.start c.epochs).map (fun e => (e, wof e))) = .ok r) :
+    let R := stopperReq stId es evalFirst ev₀ wof c.start
+    (∃ e, c.start ≤ e ∧ e ≤ c.epochs ∧
+        C12.QuietBefore c R e ∧ C12.QuietUpto c R e c.numBatches ∧ Train.reqEv c R (.epochEnd e) = true ∧
+        r.st = ⟨true, some e⟩ ∧ r.fired = fired₀ ++ Train.epochRange c.start e ∧
+        Train.events (Train.fit c R false).1 =
+          Train.Event.trainStart :: (C12.fullEpochs c.numBatches c.start e ++ [Train.Event.trainEnd]) ∧
+        (Train.fit c R false).2.stop = true) ∨
+    (C12.QuietBefore c R (c.epochs + 1) ∧
+        r.st = ⟨false, last₀⟩ ∧ r.fired = fired₀ ++ Train.epochRange c.start c.epochs ∧
+        Train.events (Train.fit c R false).1 =
+          Train.Event.trainStart :: (C12.fullEpochs c.numBatches c.start c.epochs ++ [Train.Event.trainEnd]) ∧
+        (Train.fit c R false).2.stop = false) := by
+  intro R
+  obtain ⟨hts, hte, hee, hup, hqe, hqb⟩ := C18_derived_requests stId es evalFirst ev₀ wof c hst
+  simp only [fitRun, Bool.false_eq_true, if_false] at hrun
+  have hev : evalAfter ev₀ wof (Train.epochRange c.start (c.start - 1)) = .ok ev₀ := by
+    rw [Train.epochRange_rec, if_pos (by omega)]; rfl
+  rcases fitLoop_stopAsk es evalFirst ev₀ wof c.start c.epochs _ c.start ev₀ last₀ fired₀ r rfl (Int.le_refl _) hev hrun with
+    ⟨pre, e, post, hsplit, he, hpre, hrst, hrf, _⟩ | ⟨hnone, hrst, hrf, _⟩
+  · obtain ⟨hp, h1, h2, _⟩ := epochRange_split c.epochs pre c.start e post hsplit
+    have hq : C12.QuietBefore c R e := by
+      refine (hqb e).mpr (fun e' g1 g2 => hpre e' ?_)
+      rw [hp]; exact (Train.mem_epochRange _ _ _).mpr ⟨g1, by omega⟩
+    have hr : Train.reqEv c R (.epochEnd e) = true := by rw [hee e]; exact he
+    obtain ⟨t1, t2⟩ := C12.C12_stop_at_epoch_end c R e h1 h2 hq (hup e _) hr
+    exact Or.inl ⟨e, h1, h2, hq, hup e _, hr, hrst, by rw [hrf, epochRange_split_snoc hsplit], t1, t2⟩
+  · have hq : C12.QuietBefore c R (c.epochs + 1) := by
+      refine (hqb _).mpr (fun e' g1 g2 => hnone e' ?_)
+      exact (Train.mem_epochRange _ _ _).mpr ⟨g1, by omega⟩
+    obtain ⟨t1, t2⟩ := C12.C12_complete_without_stop c R hq
+    exact Or.inr ⟨hq, hrst, hrf, t1, by rw [t2]; exact hte⟩
+
+/-- **C18 ↔ C12: the early-stopping loop is `Train.fit` with the derived requests.** Under the hypotheses of `C18_fit_cases`
+(∀ starting epochs, last epochs — empty ranges included —, numbers of batches, periods, patience, tolerances, criteria, value
+sequences, list orders, earlier histories; a run that returns): the epochs whose `on_epoch_end` EarlyStop's loop fired are
+exactly the epochs of the C12 event trace — which is train-start, those epochs each with ALL its batches, train-end —, the
+`on_epoch_end` events of that trace are that list, the final `stop_training` of both models agree, and the stopper's
+`last_epoch` is the last epoch of the trace iff the flag is set (untouched otherwise). -/
+theorem C18_fitLoop_is_C12_fit (stId : Nat) (es : EarlyStopping α) (evalFirst : Bool) (ev₀ : AnyEval W α) (wof : Int → W)
+    (c : Train.Cfg) (hst : stId ∈ c.cbs) (last₀ : Option Int) (fired₀ : List Int) (r : FitState W α)
+    (hrun : fitRun es evalFirst ⟨ev₀, ⟨false, last₀⟩, fired₀⟩
+      ((Train.epochRange c.start c.epochs).map (fun e => (e, wof e))) = .ok r) :
+    let R := stopperReq stId es evalFirst ev₀ wof c.start
+    ∃ run, r.fired = fired₀ ++ run ∧
+      Train.events (Train.fit c R false).1 =
+        Train.Event.trainStart :: (run.flatMap (fun e => C12.epochBlock e c.numBatches) ++ [Train.Event.trainEnd]) ∧
+      (Train.events (Train.fit c R false).1).filterMap C12.epochEndOf = run ∧
+      (Train.fit c R false).2.stop = r.st.stop ∧
+      r.st.lastEpoch = (if r.st.stop then run.getLast? else last₀) ∧
+      (r.st.stop = true → run ≠ []) := by
+  intro R
+  have hfm : ∀ b, (Train.Event.trainStart :: (C12.fullEpochs c.numBatches c.start b ++ [Train.Event.trainEnd])).filterMap
+      C12.epochEndOf = Train.epochRange c.start b := by
+    intro b
+    rw [List.filterMap_cons, List.filterMap_append, fullEpochs_epochEnds]
+    simp [C12.epochEndOf]
+  rcases C18_fit_cases stId es evalFirst ev₀ wof c hst last₀ fired₀ r hrun with
+    ⟨e, h1, _, _, _, _, hrst, hrf, t1, t2⟩ | ⟨_, hrst, hrf, t1, t2⟩
+  · refine ⟨Train.epochRange c.start e, hrf, t1, by rw [t1]; exact hfm e, by rw [t2, hrst], ?_, ?_⟩
+    · rw [hrst, Train.epochRange_snoc c.start e h1]; simp
+    · intro _
+      rw [Train.epochRange_snoc c.start e h1]; simp
+  · refine ⟨Train.epochRange c.start c.epochs, hrf, t1, by rw [t1]; exact hfm _, by rw [t2, hrst], ?_, ?_⟩
+    · rw [hrst]; simp
+    · rw [hrst]; simp
+
+/-- **C18 ↔ C12 with several stop sources.** One `fit(starting_epoch = c.start, epochs = c.epochs)` with the callback list
+`before ++ [evaluator] ++ after` of QV.Model.EarlyStop (`fitRunMulti`; sources = stoppers of any configuration and callbacks
+requesting a stop at given epoch-ends, each with any `last_epoch` so far) that returns `r`, and `Train.fit` with ANY request
+oracle `R` that asks exactly as the sources do — at `on_epoch_end(e)` iff `multiAsk … e` (some source before the evaluator asks
+on the history without this epoch's evaluation, or some source after it asks with it), never at another event or inside a batch
+(`multiReq`, `C18_multiReq_derived`, is such an oracle): either the run stopped at an epoch `e` of the range, `R` satisfies the
+hypotheses of `C12_stop_at_epoch_end` at `e`, the fired epochs are `start … e` and the C12 trace is train-start, `start … e`
+in full, train-end, both flags set; or nobody asked: `R` is quiet, complete trace, both flags clear. -/
+theorem C18_fit_cases_multi (before after : List (StopSrc α × Option Int)) (ev₀ : AnyEval W α) (wof : Int → W)
+    (c : Train.Cfg) (R : Train.Req) (fired₀ : List Int) (r : MultiState W α)
+    (hee : ∀ e, Train.reqEv c R (.epochEnd e) =
+      multiAsk (before.map Prod.fst) (after.map Prod.fst) ev₀ wof c.start e)
+    (hother : Train.reqEv c R .trainStart = false ∧ Train.reqEv c R .trainEnd = false ∧
+      (∀ e, Train.reqEv c R (.epochStart e) = false) ∧
+      (∀ e b, Train.reqEv c R (.batchStart e b) = false ∧ R.mid e b = false ∧ Train.reqEv c R (.batchEnd e b) = false))
+    (hrun : fitRunMulti ⟨ev₀, before, after, false, fired₀⟩
+      ((Train.epochRange c.start c.epochs).map (fun e => (e, wof e))) = .ok r) :
+    (∃ e, c.start ≤ e ∧ e ≤ c.epochs ∧
+        C12.QuietBefore c R e ∧ C12.QuietUpto c R e c.numBatches ∧ Train.reqEv c R (.epochEnd e) = true ∧
+        r.stop = true ∧ r.fired = fired₀ ++ Train.epochRange c.start e ∧
+        Train.events (Train.fit c R false).1 =
+          Train.Event.trainStart :: (C12.fullEpochs c.numBatches c.start e ++ [Train.Event.trainEnd]) ∧
+        (Train.fit c R false).2.stop = true) ∨
+    (C12.QuietBefore c R (c.epochs + 1) ∧
+        r.stop = false ∧ r.fired = fired₀ ++ Train.epochRange c.start c.epochs ∧
+        Train.events (Train.fit c R false).1 =
+          Train.Event.trainStart :: (C12.fullEpochs c.numBatches c.start c.epochs ++ [Train.Event.trainEnd]) ∧
+        (Train.fit c R false).2.stop = false) := by
+  obtain ⟨hts, hte, hes, hb⟩ := hother
+  have hup : ∀ e j, C12.QuietUpto c R e j := fun e j => ⟨hes e, fun b _ => hb e b⟩
+  have hqb : ∀ e, (∀ e', c.start ≤ e' → e' < e →
+      multiAsk (before.map Prod.fst) (after.map Prod.fst) ev₀ wof c.start e' = false) → C12.QuietBefore c R e :=
+    fun e h => ⟨hts, fun e' h1 h2 => ⟨hup e' _, by rw [hee e']; exact h e' h1 h2⟩⟩
+  simp only [fitRunMulti, Bool.false_eq_true, if_false] at hrun
+  have hev : evalAfter ev₀ wof (Train.epochRange c.start (c.start - 1)) = .ok ev₀ := by
+    rw [Train.epochRange_rec, if_pos (by omega)]; rfl
+  rcases fitLoopMulti_ask (before.map Prod.fst) (after.map Prod.fst) ev₀ wof c.start c.epochs _ c.start
+      ⟨ev₀, before, after, false, fired₀⟩ r rfl (Int.le_refl _) rfl rfl rfl hev hrun with
+    ⟨pre, e, post, hsplit, he, hpre, hrs, hrf⟩ | ⟨hnone, hrs, hrf⟩
+  · obtain ⟨hp, h1, h2, _⟩ := epochRange_split c.epochs pre c.start e post hsplit
+    have hq : C12.QuietBefore c R e := by
+      refine hqb e (fun e' g1 g2 => hpre e' ?_)
+      rw [hp]; exact (Train.mem_epochRange _ _ _).mpr ⟨g1, by omega⟩
+    have hr : Train.reqEv c R (.epochEnd e) = true := by rw [hee e]; exact he
+    obtain ⟨t1, t2⟩ := C12.C12_stop_at_epoch_end c R e h1 h2 hq (hup e _) hr
+    exact Or.inl ⟨e, h1, h2, hq, hup e _, hr, hrs, by rw [hrf, epochRange_split_snoc hsplit], t1, t2⟩
+  · have hq : C12.QuietBefore c R (c.epochs + 1) := by
+      refine hqb _ (fun e' g1 g2 => hnone e' ?_)
+      exact (Train.mem_epochRange _ _ _).mpr ⟨g1, by omega⟩
+    obtain ⟨t1, t2⟩ := C12.C12_complete_without_stop c R hq
+    exact Or.inr ⟨hq, hrs, hrf, t1, by rw [t2]; exact hte⟩
+
+/-- **C18 ↔ C12: the derived requests of several sources.** `multiReq` — callback identities = positions in the list
+`before ++ [evaluator] ++ after`; a source before the evaluator asks on the history without this epoch's evaluation, one after
+it with it, the evaluator never — is an oracle as `C18_fit_cases_multi` wants it: some callback asks at `on_epoch_end(e)` iff
+`multiAsk … e`, nobody asks at any other event or inside a batch. -/
+theorem C18_multiReq_derived (before after : List (StopSrc α)) (ev₀ : AnyEval W α) (wof : Int → W) (c : Train.Cfg)
+    (hc : c.cbs = List.range (before.length + 1 + after.length)) :
+    let R := multiReq before after ev₀ wof c.start
+    (∀ e, Train.reqEv c R (.epochEnd e) = multiAsk before after ev₀ wof c.start e) ∧
+    (Train.reqEv c R .trainStart = false ∧ Train.reqEv c R .trainEnd = false ∧
+      (∀ e, Train.reqEv c R (.epochStart e) = false) ∧
+      (∀ e b, Train.reqEv c R (.batchStart e b) = false ∧ R.mid e b = false ∧ Train.reqEv c R (.batchEnd e b) = false)) := by
+  intro R
+  have h := multiReq_reqEv ev₀ wof before after c hc
+  exact ⟨fun e => h (.epochEnd e), h .trainStart, h .trainEnd, fun e => h (.epochStart e),
+    fun e b => ⟨h (.batchStart e b), rfl, h (.batchEnd e b)⟩⟩
+
+/-- **C18 ↔ C12: `fitRunMulti` is `Train.fit` with the derived requests `multiReq`** (the instance of `C18_fit_cases_multi`
+for the concrete oracle): the epochs fired by EarlyStop's loop with several stop sources are the epochs of the C12 trace, which
+is train-start, those epochs in full, train-end; the final flags agree. -/
+theorem C18_fitRunMulti_is_C12_fit (before after : List (StopSrc α × Option Int)) (ev₀ : AnyEval W α) (wof : Int → W)
+    (c : Train.Cfg) (hc : c.cbs = List.range (before.length + 1 + after.length)) (fired₀ : List Int) (r : MultiState W α)
+    (hrun : fitRunMulti ⟨ev₀, before, after, false, fired₀⟩
+      ((Train.epochRange c.start c.epochs).map (fun e => (e, wof e))) = .ok r) :
+    let R := multiReq (before.map Prod.fst) (after.map Prod.fst) ev₀ wof c.start
+    ∃ run, r.fired = fired₀ ++ run ∧
+      Train.events (Train.fit c R false).1 =
+        Train.Event.trainStart :: (run.flatMap (fun e => C12.epochBlock e c.numBatches) ++ [Train.Event.trainEnd]) ∧
+      (Train.fit c R false).2.stop = r.stop ∧
+      (∃ last, run = Train.epochRange c.start last ∧ last ≤ c.epochs ∧ (r.stop = false → last = c.epochs)) := by
+  intro R
+  obtain ⟨hee, hother⟩ := C18_multiReq_derived (before.map Prod.fst) (after.map Prod.fst) ev₀ wof c (by simpa using hc)
+  rcases C18_fit_cases_multi before after ev₀ wof c R fired₀ r hee hother hrun with
+    ⟨e, _, h2, _, _, _, hrs, hrf, t1, t2⟩ | ⟨_, hrs, hrf, t1, t2⟩
+  · exact ⟨_, hrf, t1, by rw [t2, hrs], e, rfl, h2, fun h => by rw [hrs] at h; simp at h⟩
+  · exact ⟨_, hrf, t1, by rw [t2, hrs], c.epochs, rfl, Int.le_refl _, fun _ => rfl⟩
+
+end tie
+
+/-- **C18 stop trace.** The hypotheses of `C18_first_stop` (ℝ; any value sequence `wof`, patience `p ≥ 1`, periods ≥ 1, any
+tolerance, either list order, an evaluator in good order with any earlier history `prev`), the run being
+`fit(starting_epoch = c.start, epochs = c.epochs)` with `c.numBatches` batches per epoch and any further callbacks that do not
+ask for a stop.  NO "the run returns" hypothesis.  With `R` the derived request oracle:
+* either the documented rule first holds at a checked candidate `x` (`StopsAt`, no earlier candidate): then the C12 event trace
+  is train-start, the epochs before `x` in full, epoch `x` in full, train-end — it ends `…, ee x, te` —, no epoch after `x`
+  starts, the flag of `Train.fit` is set, and `R` satisfies the hypotheses of `C12_stop_at_epoch_end` at `x`;
+* or it holds at no candidate: the trace is the complete one, the flag clear, `R` is quiet (`C12_complete_without_stop`). -/
+theorem C18_stop_trace (es : EarlyStopping ℝ) (p : ℕ) (hp1 : 1 ≤ p) (hp : es.patience = (p : Int))
+    (hps : 1 ≤ es.period) (evalFirst : Bool) {Mof Vof : W → Num ℝ} (wof : Int → W) (c : Train.Cfg) (stId : Nat)
+    (hst : stId ∈ c.cbs) (ev₀ : AnyEval W ℝ) (prev : List (Int × W))
+    (hmon : Monitors es.quantityName Mof Vof es.criterion ev₀ prev) :
+    let cands := (Train.epochRange c.start c.epochs).map (fun e => (e, wof e))
+    let R := stopperReq stId es evalFirst ev₀ wof c.start
+    (∃ pre x post, cands = pre ++ x :: post ∧ c.start ≤ x.1 ∧ x.1 ≤ c.epochs ∧
+        StopsAt es p evalFirst (evalPeriod ev₀) Mof Vof prev pre x ∧
+        (∀ pre' x' post', cands = pre' ++ x' :: post' → pre'.length < pre.length →
+          ¬ StopsAt es p evalFirst (evalPeriod ev₀) Mof Vof prev pre' x') ∧
+        C12.QuietBefore c R x.1 ∧ C12.QuietUpto c R x.1 c.numBatches ∧ Train.reqEv c R (.epochEnd x.1) = true ∧
+        Train.events (Train.fit c R false).1 =
+          Train.Event.trainStart :: (C12.fullEpochs c.numBatches c.start (x.1 - 1) ++ C12.epochBlock x.1 c.numBatches
+            ++ [Train.Event.trainEnd]) ∧
+        (∀ e', x.1 < e' → Train.Event.epochStart e' ∉ Train.events (Train.fit c R false).1) ∧
+        (Train.fit c R false).2.stop = true) ∨
+    ((∀ pre x post, cands = pre ++ x :: post → ¬ StopsAt es p evalFirst (evalPeriod ev₀) Mof Vof prev pre x) ∧
+        C12.QuietBefore c R (c.epochs + 1) ∧
+        Train.events (Train.fit c R false).1 =
+          Train.Event.trainStart :: (C12.fullEpochs c.numBatches c.start c.epochs ++ [Train.Event.trainEnd]) ∧
+        (Train.fit c R false).2.stop = false) := by
+  intro cands R
+  obtain ⟨r, hrun, hcases⟩ := C18_first_stop es p hp1 hp hps evalFirst cands ev₀ prev none [] hmon
+  have hstarts : ∀ (b e' : Int), Train.Event.epochStart e' ∈
+      Train.Event.trainStart :: (C12.fullEpochs c.numBatches c.start b ++ [Train.Event.trainEnd]) → e' ≤ b := by
+    intro b e' hmem
+    have h2 : e' ∈ (Train.Event.trainStart :: (C12.fullEpochs c.numBatches c.start b ++ [Train.Event.trainEnd])).filterMap
+        C12.epochStartOf := List.mem_filterMap.mpr ⟨_, hmem, rfl⟩
+    rw [List.filterMap_cons, List.filterMap_append, ← C12.fullEpochs_start_end, fullEpochs_epochEnds] at h2
+    simp only [C12.epochStartOf, List.filterMap_cons, List.filterMap_nil, List.append_nil] at h2
+    exact ((Train.mem_epochRange _ _ _).mp h2).2
+  rcases C18_fit_cases stId es evalFirst ev₀ wof c hst none [] r hrun with
+    ⟨e, h1, h2, hq, hu, hr, hrst, _, t1, t2⟩ | ⟨hq, hrst, _, t1, t2⟩
+  · rcases hcases with ⟨pre, x, post, hsplit, hsa, hearlier, hrst', _⟩ | ⟨_, hrst', _⟩
+    · have hxe : x.1 = e := by
+        rw [hrst] at hrst'
+        simpa using hrst'.symm
+      subst hxe
+      refine Or.inl ⟨pre, x, post, hsplit, by omega, by omega, hsa, hearlier, hq, hu, hr, ?_, ?_, t2⟩
+      · rw [t1, C12.fullEpochs_snoc c.numBatches c.start _ h1]
+      · intro e' hlt hmem
+        rw [t1] at hmem
+        have := hstarts _ e' hmem
+        omega
+    · rw [hrst] at hrst'; simp at hrst'
+  · rcases hcases with ⟨_, _, _, _, _, _, hrst', _⟩ | ⟨hnone, _, _⟩
+    · rw [hrst] at hrst'; simp at hrst'
+    · exact Or.inr ⟨hnone, hq, t1, t2⟩
+
 /-! ### non-vacuity, the F7 regression witness and the (repaired) F8 witness -/
 
 /-- a metric evaluator of period 1 tracking one scripted quantity "m" (value = function of the epoch) -/
@@ -932,7 +1215,7 @@ def f15 : Int → Num ℝ := fun e => ⟨.py, if e = 1 then 1 else 5⟩
 
 /-- **F7 regression witness** (`p = 1`, values `[1, 5, 5, …]`, tolerance `0.01`, absolute): the run does NOT stop at
 the second evaluation (where the unfixed code compared 5 with itself) but at the third. -/
-example : (fitRun (exStopper .absolute 0.01) true ⟨exEval f15, ⟨false, none⟩, []⟩ [(1, 1), (2, 2), (3, 3), (4, 4)]).map
+theorem exRun15 : (fitRun (exStopper .absolute 0.01) true ⟨exEval f15, ⟨false, none⟩, []⟩ [(1, 1), (2, 2), (3, 3), (4, 4)]).map
         (fun r => (r.st, r.fired)) = .ok (⟨true, some 3⟩, [1, 2, 3]) := by
   have h1 : epochEndBoth (exStopper .absolute 0.01) true ⟨exEval f15, ⟨false, none⟩, []⟩ 1 1
       = .ok ⟨exEvalAt f15 [(1, 1)], ⟨false, none⟩, [1]⟩ := by
@@ -1073,6 +1356,49 @@ example : (EarlyStopping.new 1 (some (0 : ℝ)) (.int 2) .metric "m" "  Variance
 /-- an unknown criterion -/
 example : (EarlyStopping.new 1 (some (0 : ℝ)) (.int 2) .observable "m" "rel" : Except PyErr (EarlyStopping ℝ)) = .error .ValueError :=
   (C18_unknown_criterion 1 (some 0) 2 "m" "rel" (by decide) (by decide) (by decide)).2.1
+
+/-! ### the tie to C12 on the F7 witness -/
+
+/-- the `fit` of the F7 witness as a C12 configuration: `starting_epoch = 1`, `epochs = 4`, 2 batches per epoch,
+callback list `[evaluator (identity 0), stopper (identity 1)]`, no timer, no scheduler -/
+def exCfg18 : Train.Cfg := ⟨1, 4, 2, [0, 1], false, false⟩
+
+/-- the hypothesis "`fitRun` returns" of `C18_fit_cases` / `C18_fitLoop_is_C12_fit` holds on the F7 witness, and the
+conclusion pins the C12 event trace of the run with the derived requests: epochs 1, 2, 3 in full (two batches each), then
+train-end — epoch 4 never starts — and the stop flag of `Train.fit` is set. -/
+example :
+    Train.events (Train.fit exCfg18 (stopperReq 1 (exStopper .absolute 0.01) true (exEval f15) (fun e => e) 1) false).1
+      = Train.Event.trainStart :: (C12.fullEpochs 2 1 3 ++ [Train.Event.trainEnd]) ∧
+    (Train.fit exCfg18 (stopperReq 1 (exStopper .absolute 0.01) true (exEval f15) (fun e => e) 1) false).2.stop = true := by
+  have hc : (Train.epochRange exCfg18.start exCfg18.epochs).map (fun e => (e, (fun e : Int => e) e))
+      = [(1, 1), (2, 2), (3, 3), (4, 4)] := by decide
+  obtain ⟨r, hr, hst⟩ : ∃ r, fitRun (exStopper .absolute 0.01) true ⟨exEval f15, ⟨false, none⟩, []⟩
+      [(1, 1), (2, 2), (3, 3), (4, 4)] = .ok r ∧ r.st = ⟨true, some 3⟩ := by
+    have h := exRun15
+    cases hf : fitRun (exStopper .absolute 0.01) true ⟨exEval f15, ⟨false, none⟩, []⟩ [(1, 1), (2, 2), (3, 3), (4, 4)] with
+    | error err => rw [hf] at h; simp [Except.map] at h
+    | ok r =>
+      rw [hf] at h
+      simp only [Except.map, Except.ok.injEq, Prod.mk.injEq] at h
+      exact ⟨r, rfl, h.1⟩
+  rw [← hc] at hr
+  rcases C18_fit_cases 1 (exStopper .absolute 0.01) true (exEval f15) (fun e => e) exCfg18 (by decide) none [] r hr with
+    ⟨e, _, _, _, _, _, hrst, _, t1, t2⟩ | ⟨_, hrst, _⟩
+  · have he : e = 3 := by rw [hst] at hrst; simpa using hrst.symm
+    subst he
+    exact ⟨t1, t2⟩
+  · rw [hst] at hrst; simp at hrst
+
+/-- the hypotheses of `C18_stop_trace` are met by the F7 witness (patience 1, period 1, the example evaluator, the stopper at
+position 1 of the callback list) -/
+example := C18_stop_trace (exStopper .absolute 0.01) 1 (Nat.le_refl 1) rfl (by simp [exStopper]) true (Mof := f15) (Vof := f15)
+  (fun e => e) exCfg18 1 (by decide) (exEval f15) []
+  ⟨by simp, by simp [MetricEvaluator.names, Dict.keys], by simp, by simp [exStopper], by simp [exStopper], rfl⟩
+
+/-- the hypotheses of `C18_multiReq_derived` / `C18_fitRunMulti_is_C12_fit` are met by the callback list
+`[evaluator, stopper (patience 1), stopper (patience 2), requester at epoch 2]` (identities = positions 0..3) -/
+example := C18_multiReq_derived (α := ℝ) [] [.stopper (exStopper .absolute 0.01), .stopper (exStopper2 .absolute 0.01), .request [2]]
+  (exEval f15) (fun e => e) ⟨1, 4, 2, [0, 1, 2, 3], false, false⟩ (by decide)
 
 end C18
 end QV.Props
